@@ -118,7 +118,7 @@ def run(report, tier, seed):
             for (v, w, s, pl) in (must + combos)[:per_base]:
                 _type_case(report, ybin, sc, seed, b, pkg, v, w, s, pl, rr)
             for dv in DEF_VIOLATIONS:
-                for pl in PLACEMENTS:
+                for pl in PLACEMENTS + ["main-reversed", "main-with-protocol-only-import"]:
                     _def_case(report, ybin, sc, seed, b, pkg, dv, pl, rr)
 
 
@@ -149,6 +149,17 @@ def _place(pkg, defs, placement, rr):
     """-> (package to validate, previous version package or None, name of the package dir that holds the violation, file name)"""
     p = copy.deepcopy(pkg)
     if placement == "main":
+        p.defs = p.defs + defs
+        return p, None, "pkg_" + p.namespace, "model.yml"
+    if placement == "main-reversed":
+        # the same definitions in the opposite order, ahead of everything else: a verdict must not depend on which definition is met first
+        p.defs = list(reversed(defs)) + p.defs
+        return p, None, "pkg_" + p.namespace, "model.yml"
+    if placement == "main-with-protocol-only-import":
+        # the first namespace the passes meet has no type definitions at all
+        only = modelgen.Package("ZzOnlyProtocols")
+        only.defs = [{"kind": "protocol", "name": "ZzHandshake", "steps": [("hello", P("string"), False)]}]
+        p.imports = [only] + list(p.imports)
         p.defs = p.defs + defs
         return p, None, "pkg_" + p.namespace, "model.yml"
     if placement == "second-file":
